@@ -12,7 +12,7 @@ Definition spec_c05h (co : hcase * list Z) : bool :=
       | None => false
       | Some obs =>
           let rs := map hc_rule (hw_ctls w) in
-          if forallb (fun r => match h_kind r with HConc => thresholds_pos r | _ => false end) rs
+          if forallb (fun r => match h_kind r with HConc => true | _ => false end) rs
           then ok_c05h_multi rs [] (hc_ops c) obs else true
       end
   end.
